@@ -25,6 +25,8 @@ from .util import (
 )
 
 VERIF_DIR = os.path.dirname(os.path.dirname(os.path.abspath(__file__)))
+# where replays/ and evidence/ are written (the mutation audit points this elsewhere)
+OUT_DIR = os.environ.get("VERIF_OUT") or VERIF_DIR
 WORKERS = {"quick": 8, "thorough": 16}
 SHRINK_LIMIT_S = {"quick": 45, "thorough": 300}
 BUDGET_S = {"quick": 420, "thorough": 6 * 3600}
@@ -260,8 +262,8 @@ def replay_regress(prop_id, mod):
 
 
 def write_evidence(prop_id, mod, tier, seed, agg, wall, violations, extra):
-    os.makedirs(os.path.join(VERIF_DIR, "evidence"), exist_ok=True)
-    path = os.path.join(VERIF_DIR, "evidence", f"{prop_id}.json")
+    os.makedirs(os.path.join(OUT_DIR, "evidence"), exist_ok=True)
+    path = os.path.join(OUT_DIR, "evidence", f"{prop_id}.json")
     exh = agg["exhaustive_parts"]
     coverage = {
         "evaluations": agg["evals"],
@@ -351,7 +353,7 @@ def main(argv=None):
         print(f"replay passes: {args.replay}")
         return 0
 
-    os.makedirs(os.path.join(VERIF_DIR, "replays"), exist_ok=True)
+    os.makedirs(os.path.join(OUT_DIR, "replays"), exist_ok=True)
 
     # (2) replay tier
     try:
@@ -379,7 +381,7 @@ def main(argv=None):
     q = ctx.Queue()
     procs = []
     for w in range(nworkers):
-        rp = os.path.join(VERIF_DIR, "replays", f"{prop_id}-{tier}-s{seed}-w{w}.json")
+        rp = os.path.join(OUT_DIR, "replays", f"{prop_id}-{tier}-s{seed}-w{w}.json")
         if os.path.exists(rp):
             os.remove(rp)
         p = ctx.Process(
@@ -447,7 +449,7 @@ def main(argv=None):
         p.join(timeout=5)
     keep = (violation[1] if violation is not None else started[1] if started else None)
     for w in range(nworkers):
-        rp = os.path.join(VERIF_DIR, "replays", f"{prop_id}-{tier}-s{seed}-w{w}.json")
+        rp = os.path.join(OUT_DIR, "replays", f"{prop_id}-{tier}-s{seed}-w{w}.json")
         if rp != keep and os.path.exists(rp):
             os.remove(rp)
 
@@ -469,7 +471,7 @@ def main(argv=None):
             run_replay(prop_id, rp)
         except Violation as v:
             final = os.path.join(
-                VERIF_DIR, "replays", f"{prop_id}-{digest64(open(rp).read()):016x}.json"
+                OUT_DIR, "replays", f"{prop_id}-{digest64(open(rp).read()):016x}.json"
             )
             os.replace(rp, final)
             print(f"violation: {v}")
